@@ -341,10 +341,10 @@ class Gen:
                 return None
             c.update(tasks=self._tasks(rng.randint(2, min(3, n))))
             r = rng.random()
-            if r < 0.4:
+            if r < 0.35:
                 a = rng.randint(0, max(0, hz // 2))
                 c["interval"] = [a, rng.randint(a + 1, hz + 1)]
-            elif r < 0.8:
+            elif r < 0.7:
                 c["length"] = rng.randint(1, hz)
             if kind == "OrderedTaskGroup":
                 c["mode"] = rng.choice(["lax", "strict", "tight"])
